@@ -70,10 +70,12 @@ Seal(v, st) ==
   /\ UNCHANGED towers
 DecodeStep == ph = "decode" /\ ~s.done /\ s' = TowerStep(wire, s) /\ UNCHANGED <<towers, reply, wire, ph>>
 WellFormed == WellFormedEptMapResult(reply)
-Emit ==
-  /\ ph = "decode" /\ s.done /\ ph' = "done" /\ UNCHANGED <<towers, reply, wire, s>>
-  /\ PrintT(<<"CASE", ToJson([r |-> reply, wire |-> wire, wf |-> WellFormed, exp |-> Expected(reply.towers, reply.status),
-                              ok |-> s.ok, iters |-> s.iters])>>)
+Emit == ph = "decode" /\ s.done /\ ph' = "done" /\ UNCHANGED <<towers, reply, wire, s>>
+(* emission as an invariant: evaluated exactly once per distinct terminal state (BFS) / per trace (-simulate) *)
+EmitCase ==
+  ph = "done" =>
+    PrintT(<<"CASE", ToJson([r |-> reply, wire |-> wire, wf |-> WellFormed, exp |-> Expected(reply.towers, reply.status),
+                             ok |-> s.ok, iters |-> s.iters])>>)
 Next == (\E t \in 1 .. NTemplates : Add(t)) \/ (\E v \in Variants, st \in Statuses : Seal(v, st)) \/ DecodeStep \/ Emit
 Spec == Init /\ [][Next]_vars /\ WF_vars(DecodeStep \/ Emit)
 
@@ -85,7 +87,7 @@ IterationsBounded ==
               /\ s.cur <= Len(wire)
 WellFormedIsDecoded ==       \* spec-level inverse: the decoder recovers exactly the towers that were rendered
   (Decoding /\ s.done /\ WellFormed) => s.ok /\ s.items = reply.towers /\ s.cur = Len(wire) - 4
-                                          /\ DecEptMapResult(wire).status = reply.status
+                                          /\ DecEptMapResult(wire) = [ok |-> TRUE, iters |-> s.iters, end |-> s.cur, v |-> reply]
 AbsurdCountIsRejected ==     \* a count that cannot fit in the data is an error after O(1) work
   (Decoding /\ Sat64(reply.count) > Len(wire) \div 8) => s.done /\ ~s.ok /\ s.iters <= 1
 Aligned ==                    \* every tower body starts 8-byte aligned (NDR64), whatever its length
@@ -100,7 +102,7 @@ PortRule ==
                              /\ \E k \in 1 .. Len(reply.towers) :
                                    /\ HasTcp(reply.towers[k]) /\ \A j \in 1 .. k - 1 : ~HasTcp(reply.towers[j])
                                    /\ \E f \in 1 .. Len(reply.towers[k]) : reply.towers[k][f] = TcpFloor(e[2]))
-Terminates == <>(ph = "done")
+Terminates == (ph = "decode") ~> (ph = "done")
 
 (* ---- constant-level lemmas (evaluated once at start-up) ------------------------------------------ *)
 TemplateFloors == UNION {{Template(t, 1)[i] : i \in 1 .. Len(Template(t, 1))} : t \in 1 .. NTemplates}
